@@ -1,7 +1,8 @@
 Require Import ExtrOcamlBasic.
-From Eupsv Require Import Base.Base Model.Paths Model.Records Model.RecordsExt.
+From Eupsv Require Import Base.Base Model.Paths Model.Records Model.RecordsExt Model.RecordsDirs.
 Extraction "model.ml" keep_types vf_read vf_lines vf_write_gen add_flavor db_declare_gen db_find
   cf_read cf_lines cf_set_version canon_gen resolve_paths mk_product trim_info_gen
   vf_classify cf_classify make_product cf_get_version cf_remove_version vf_remove_flavor
   realpath ex_via env0
-  cf_set_versions_opt cf_remove_versions_opt assign_flavors db_assign_tag db_find_seq.
+  cf_set_versions_opt cf_remove_versions_opt assign_flavors db_assign_tag db_find_seq
+  tag_target db_assign_tag_at db_assign_tag_in.
